@@ -704,6 +704,17 @@ impl Drop for Interp {
                     })
                 });
             }
+            // a destructor of the dying task wakes the task's own waker (what the sender half of
+            // a channel does when it is dropped while the receiver lives in the same task)
+            let own: Option<Waker> = ledger::host(|| wwith(|w| w.kept.iter().find(|(t, _)| *t == tid).map(|(_, wk)| wk.clone())));
+            if let Some(wk) = own {
+                if pick(2) == 0 {
+                    gtr!("i{}: its destructor wakes a kept waker of its own task {tid}", self.iid);
+                    fault("own_waker_woken_by_destructor");
+                    wake_counted(tid, &wk, true);
+                }
+                ledger::host(|| drop(wk));
+            }
         }
     }
 }
